@@ -12,10 +12,10 @@ git status --short | grep -v spatial_reference_systems.go | grep -v '^??' && { e
 mkdir -p verifrepro; rm -f verifrepro/*_test.go; cp /verif/repro/*_test.go verifrepro/
 # repro tests that live in another package are named <pkgdir-with-__>__x_test.go.txt and copied there
 go vet ./verifrepro >/dev/null 2>&1 || { echo "repro package does not build:"; go vet ./verifrepro 2>&1 | head; exit 2; }
-go test -count=1 ./verifrepro -run "$RX" >/tmp/fix_before.log 2>&1 && { echo "repro PASSES before the fix (not a demonstration)"; tail -3 /tmp/fix_before.log; exit 1; }
+go test -count=1 ${GOTESTFLAGS:-} ./verifrepro -run "$RX" >/tmp/fix_before.log 2>&1 && { echo "repro PASSES before the fix (not a demonstration)"; tail -3 /tmp/fix_before.log; exit 1; }
 echo "before: repro fails: $(grep -m1 -- '--- FAIL\|panic' /tmp/fix_before.log)"
 git apply $P || { echo "patch does not apply"; exit 1; }
-go test -count=1 ./verifrepro -run "$RX" >/tmp/fix_after.log 2>&1 || { echo "repro still FAILS after the fix"; tail -5 /tmp/fix_after.log; git apply -R $P; exit 1; }
+go test -count=1 ${GOTESTFLAGS:-} ./verifrepro -run "$RX" >/tmp/fix_after.log 2>&1 || { echo "repro still FAILS after the fix"; tail -5 /tmp/fix_after.log; git apply -R $P; exit 1; }
 echo "after: repro passes"
 PK=$(grep '^+++ b/' $P | sed 's|+++ b/||' | xargs -n1 dirname | sort -u | sed 's|^|./|')
 go test -count=1 $PK 2>&1 | tail -4
